@@ -16,6 +16,8 @@ def plan(pid, tier, seed):
             {"module": "SpringApi", "cfg": "SpringApi_MC_thorough.cfg", "emit": True, "sample": 20000, "properties": PROPS, "timeout": 3000},
             {"module": "SpringApi", "cfg": "SpringApi_Gen.cfg", "emit": True, "sample": 40000, "properties": PROPS, "timeout": 1800},
         ]
+    if quick and pid == "C07":     # C07 only needs the multi-run histories
+        mc = [dict(mc[1], sample=1000)]
     return {
         "harness": "springapi",
         "mc": mc,
